@@ -82,6 +82,31 @@ class FilesystemIsolation(ContextDecorator):
             if p is not None:
                 self._created.discard(self._abspath(p))
 
+    def _is_isolated(self, path: os.PathLike | str) -> bool:
+        """Whether the path lies in the private temp dir or below a path created in isolation."""
+        current = self._abspath(path)
+        tmp_root = self._abspath(self._tmp.name)
+        while True:
+            if current in self._created or current == tmp_root:
+                return True
+            parent = os.path.dirname(current)  # noqa: PTH120
+            if parent == current:
+                return False
+            current = parent
+
+    def _is_foreign(self, path: os.PathLike | str | int | None) -> bool:
+        """Whether the path exists already but was not created in isolation.
+
+        Such pre-existing paths must neither be modified nor recorded as created,
+        because everything that is recorded gets deleted on exit.
+        """
+        if path is None or isinstance(path, int):
+            return False
+        try:
+            return os.path.lexists(path) and not self._is_isolated(path)
+        except Exception:  # noqa: BLE001
+            return False
+
     @staticmethod
     def _is_write_mode(mode: str) -> bool:
         """Check if a mode is write mode."""
@@ -106,8 +131,13 @@ class FilesystemIsolation(ContextDecorator):
         record_arg_idx: int | None = None,
         record_dst_idx: int | None = None,
         forget_arg_idx: int | None = None,
+        protect_dst: bool = False,
     ) -> Callable:
-        """Create a tracked wrapper that uses positional indices."""
+        """Create a tracked wrapper that uses positional indices.
+
+        Paths that exist before the call without having been created in isolation are
+        never recorded; with ``protect_dst`` the call is refused if it would overwrite one.
+        """
 
         @functools.wraps(original_func)
         def tracked_method(*args, **kwargs):
@@ -118,12 +148,19 @@ class FilesystemIsolation(ContextDecorator):
                 if abs_forget not in self._created:
                     raise PermissionError(f"Attempted to modify non-isolated path: {abs_forget}")
 
+            rec = self._get_arg(args, kwargs, record_arg_idx)
+            dst = self._get_arg(args, kwargs, record_dst_idx)
+            if protect_dst and self._is_foreign(dst):
+                raise PermissionError(
+                    f"Attempted to overwrite non-isolated path: {self._abspath(dst)}"
+                )
+            # decide before the call: afterwards a pre-existing target looks like a new one
+            to_record = [p for p in (rec, dst) if not self._is_foreign(p)]
+
             res = original_func(*args, **kwargs)
 
             try:
-                rec = self._get_arg(args, kwargs, record_arg_idx)
-                dst = self._get_arg(args, kwargs, record_dst_idx)
-                self._record_created(rec, dst)
+                self._record_created(*to_record)
             except Exception:  # noqa: BLE001
                 _LOGGER.warning("Failed to update bookkeeping for %s", original_func)
 
@@ -145,6 +182,10 @@ class FilesystemIsolation(ContextDecorator):
             # second positional arg may be mode, or kwargs['mode']
             file_arg = args[0] if args else kwargs.get("file")
             mode = kwargs.get("mode", args[1] if len(args) > 1 else "r")
+            if isinstance(mode, str) and self._is_write_mode(mode) and self._is_foreign(file_arg):
+                raise PermissionError(
+                    f"Attempted to write to non-isolated path: {self._abspath(file_arg)}"
+                )
             f = original_func(*args, **kwargs)
             if isinstance(mode, str) and self._is_write_mode(mode):
                 try:
@@ -172,6 +213,10 @@ class FilesystemIsolation(ContextDecorator):
         @functools.wraps(original_func)
         def tracked_os_open(path, flags, *args, **kwargs):
             should_record = bool(flags & write_flags)
+            if should_record and self._is_foreign(path):
+                raise PermissionError(
+                    f"Attempted to write to non-isolated path: {self._abspath(path)}"
+                )
             fd = original_func(path, flags, *args, **kwargs)
             if should_record:
                 try:
@@ -207,8 +252,8 @@ class FilesystemIsolation(ContextDecorator):
         patches = {
             (os, "mkdir"): {"record_arg_idx": 0},
             (os, "makedirs"): {"record_arg_idx": 0},
-            (os, "rename"): {"forget_arg_idx": 0, "record_dst_idx": 1},
-            (os, "replace"): {"forget_arg_idx": 0, "record_dst_idx": 1},
+            (os, "rename"): {"forget_arg_idx": 0, "record_dst_idx": 1, "protect_dst": True},
+            (os, "replace"): {"forget_arg_idx": 0, "record_dst_idx": 1, "protect_dst": True},
             (shutil, "copyfile"): {"record_dst_idx": 1},
             (shutil, "copy"): {"record_dst_idx": 1},
             (shutil, "copy2"): {"record_dst_idx": 1},
